@@ -59,6 +59,17 @@ def replay_case(case):
         outv2 = np.asarray(dsp.timeshift(data, sh, order=order), dtype=float)
         if not np.array_equal(outv, outv2):
             probs.append(("repeated_call_differs", outv2.tolist(), outv.tolist()))
+    # the record's dtype must not matter: integer and single-precision records give the same interpolated values
+    for dt, tol in ((np.int64, 1e-11), (np.float32, 1e-5)):
+        rec = np.array(case["data"]).astype(dt)
+        if s != 0:
+            o = np.asarray(dsp.timeshift(rec, s, order=order), dtype=float)
+            if o.shape != exp.shape or not np.allclose(o, exp, rtol=0, atol=tol * scale):
+                probs.append((f"constant_shift_value_{np.dtype(dt).name}_record", o.tolist(), exp.tolist()))
+        if np.any(sh != 0):
+            o = np.asarray(dsp.timeshift(rec, sh, order=order), dtype=float)
+            if o.shape != expv.shape or not np.allclose(o, expv, rtol=0, atol=tol * scale):
+                probs.append((f"varying_shift_value_{np.dtype(dt).name}_record", o.tolist(), expv.tolist()))
     return probs
 
 
